@@ -18,6 +18,7 @@ fv := {|x| x.f}
 gv := {|acc, x| acc.g(x)}
 unacc := {|r| r.l if r != nil}
 nn := Nil.bear({reason: "none"}).new
+kvOf := {|x| ["k#{x.id}", x.f]}
 `
 
 // behaviours of the callee at one element
@@ -259,6 +260,15 @@ func runC04(w *fw.W) {
 							dks = append(dks, fmt.Sprintf("%s|%s|%s|%s", ctx, form, rk, strings.Join(behs, ",")))
 						}
 					}
+					// the same chain continued on the next line with `|` is the same chain
+					if i := strings.Index(src, recv); i >= 0 && o.ParseErr == "" {
+						msrc := src[:i+len(recv)] + "\n  |" + src[i+len(recv):]
+						mo := ip.Run(setup+msrc, interp.Options{})
+						cells++
+						if mo.Outcome() != o.Outcome() || mo.Stdout != o.Stdout {
+							vs.add(key+"|multi-line-spelling-differs", fmt.Sprintf("%s → %s, but written over two lines with `|` → %s %s", desc, truncateMid(o.Outcome(), 200), truncateMid(mo.Outcome(), 200), firstLine(mo.ParseErr)), msrc)
+						}
+					}
 					return o
 				}
 				for _, add := range adds {
@@ -318,6 +328,15 @@ func runC04(w *fw.W) {
 							judge("@([])", "literal", recv+`@([]){|x| ["k#{x.id}", x.f]}`, cm, "["+strings.Join(pairs, ", ")+"]")
 							judge("@({})", "literal", recv+`@({}){|x| ["k#{x.id}", x.f]}`, cm, "{"+strings.Join(objp, ", ")+"}")
 							judge("@(%{})", "literal", recv+`@(%{}){|x| ["k#{x.id}", x.f]}`, cm, "%{"+strings.Join(mapp, ", ")+"}")
+							// non-empty containers: the argument's own content comes first and, for obj/map, keeps its keys
+							// (it is the initial content the results are digested into; literals are first-occurrence-wins)
+							objp2 := append([]string{`"k0": 999`}, objp[min(1, len(objp)):]...)
+							mapp2 := append([]string{`"k0": 999`}, mapp[min(1, len(mapp)):]...)
+							for _, f := range []struct{ form, call string }{{"literal", `{|x| ["k#{x.id}", x.f]}`}, {"var", "^kvOf"}} {
+								judge("@([7])", f.form, recv+`@([7])`+f.call, cm, "["+strings.Join(append([]string{"7"}, pairs...), ", ")+"]")
+								judge("@({k0: 999, zz: 1})", f.form, recv+`@({k0: 999, zz: 1})`+f.call, cm, "{"+strings.Join(append(objp2, `"zz": 1`), ", ")+"}")
+								judge(`@(%{"k0": 999})`, f.form, recv+`@(%{"k0": 999})`+f.call, cm, "%{"+strings.Join(mapp2, ", ")+"}")
+							}
 						}
 					}
 					// ---- reduce chains
